@@ -1709,7 +1709,7 @@ func TestVerif_C05(t *testing.T) {
 		r.Note("node_cancel_unreachable", "every node-cancel transaction is rejected by Validate on this tree ("+wd.cancelErr+"), so no cancel-typed output can exist in a reachable ledger")
 	}
 
-	n := r.N(20000, 300000)
+	n := r.N(20000, 600000)
 	wd.running = true
 	classes := map[string]int{}
 	accepted := 0
